@@ -15,14 +15,130 @@ lowest-numbered runnable client, so every shrunk schedule is still executable.
 """
 import os
 import sys
+import time
 import random
+import _thread
 import threading
+
+_ACTIVE = [None]          # the Baton of the simulation in progress (locks created by the library consult it)
+_ORIG_LOCK = _thread.allocate_lock
+_ORIG_RLOCK = threading.RLock
+
+
+class _Gate:
+    """Binary semaphore on a raw lock (the scheduler's own hand-over primitive; never a SimLock)."""
+
+    def __init__(self):
+        self._l = _ORIG_LOCK()
+        self._l.acquire()
+
+    def release(self):
+        self._l.release()
+
+    def acquire(self):
+        self._l.acquire()
+
+
+class _Flag:
+    def __init__(self):
+        self._g = _Gate()
+        self._set = False
+
+    def set(self):
+        if not self._set:
+            self._set = True
+            self._g.release()
+
+    def wait(self, timeout):
+        ok = self._g._l.acquire(True, timeout)
+        if ok:
+            self._g._l.release()
+        return ok
+
+
+class SimLock:
+    """threading.Lock / RLock as seen by the library under simulation. Outside a simulation (or in a thread that is
+    not a simulated client) it is a plain lock. Inside, a client that finds it held does not block the process:
+    it hands the baton to another runnable client and tries again when it gets the baton back, so a repair that
+    adds locks stays schedulable (and a genuine dead-lock is reported as such instead of hanging)."""
+
+    def __init__(self, reentrant=False):
+        self._real = _ORIG_LOCK()
+        self._re = reentrant
+        self._owner = None
+        self._count = 0
+
+    def acquire(self, blocking=True, timeout=-1):
+        me = _thread.get_ident()
+        if self._re and self._owner == me:
+            self._count += 1
+            return True
+        b = _ACTIVE[0]
+        cid = b.tid2cid.get(me) if b is not None and getattr(b, "tid2cid", None) is not None else None
+        if cid is None:
+            ok = self._real.acquire(blocking, timeout) if blocking else self._real.acquire(False)
+        else:
+            ok = self._real.acquire(False)
+            while not ok and blocking:
+                b.lock_blocked(cid, self)
+                ok = self._real.acquire(False)
+        if ok:
+            self._owner = me
+            self._count = 1
+        return ok
+
+    __enter__ = acquire
+
+    def release(self):
+        if self._re:
+            if self._owner != _thread.get_ident():
+                raise RuntimeError("cannot release un-acquired lock")
+            self._count -= 1
+            if self._count > 0:
+                return
+        self._owner = None
+        self._real.release()
+
+    def __exit__(self, *a):
+        self.release()
+
+    def locked(self):
+        return self._real.locked()
+
+    def _at_fork_reinit(self):
+        self._real = _ORIG_LOCK()
+        self._owner = None
+        self._count = 0
+
+    # what threading.Condition looks for
+    def _is_owned(self):
+        return self._owner == _thread.get_ident()
+
+    def _release_save(self):
+        st = (self._count, self._owner)
+        self._count, self._owner = 0, None
+        self._real.release()
+        return st
+
+    def _acquire_restore(self, st):
+        self.acquire()
+        self._count, self._owner = st
+
+
+def install_lock_seam():
+    """Make threading.Lock()/RLock() hand out SimLocks. Called before the library is imported, so module-level
+    locks are covered too. The scheduler's own primitives use raw locks and are unaffected."""
+    if getattr(threading, "_verif_lock_seam", False):
+        return
+    threading.Lock = lambda: SimLock(False)
+    threading.RLock = lambda: SimLock(True)
+    threading._verif_lock_seam = True
 
 
 class Baton:
     def __init__(self, n, sched, weights, opcode_files=(), step_cap=200000):
         self.n = n
-        self.sems = [threading.Semaphore(0) for _ in range(n)]
+        self.sems = [_Gate() for _ in range(n)]
         self.done = [False] * n
         self.started = False
         self.current = None
@@ -32,7 +148,7 @@ class Baton:
         self.opcode_files = set(opcode_files)
         self.step_cap = step_cap
         self.cap_hit = False
-        self.all_done = threading.Event()
+        self.all_done = _Flag()
         self.mode = sched.get("mode", "seeded")
         self.policy = sched.get("policy", "bernoulli")
         self.p = sched.get("p", 0.05)
@@ -59,6 +175,8 @@ class Baton:
                     self.first = ent[1]
                 elif kind == "s":
                     self.literal[(ent[1], ent[2])] = ent[3]
+                elif kind == "l":
+                    self.literal[("l", ent[1], ent[2])] = ent[3]
                 elif kind == "f":
                     self.literal[("f", ent[1])] = ent[2]
         self.next_obj = [None] * n               # per client: object (handle) of the operation it will start next
@@ -261,6 +379,32 @@ class Baton:
         self._switch(cid, to, site)
         self.sems[cid].acquire()
 
+    def lock_blocked(self, cid, lock):
+        """Client cid found a library lock held: give the baton to another runnable client (a forced hand-over,
+        logged as ["l", op_id, k, to]); comes back when the baton returns. Nobody else runnable = dead-lock."""
+        if self.cap_hit:
+            time.sleep(0.0005)
+            return
+        self.E += 1
+        self.local_e[cid] += 1
+        others = self._runnable(exclude=cid)
+        if not others:
+            self.errors.append("dead-lock: client %d waits for a lock and no other client can run" % cid)
+            raise RuntimeError("simulated dead-lock")
+        to = None
+        if self.mode == "literal":
+            to = self.literal.get(("l", self.cur_op[cid], self.local_e[cid]))
+            if to is not None and (to == cid or to >= self.n or self.done[to]):
+                to = None
+        if to is None:
+            to = self.rng.choice(others) if self.mode != "literal" else others[0]
+        self.log.append(["l", self.cur_op[cid], self.local_e[cid], to, cid, "lock"])
+        self._probe("lock_contention_handovers")
+        self.switch_sites.append("%d>%d@lock" % (cid, to))
+        self.current = to
+        self.sems[to].release()
+        self.sems[cid].acquire()
+
     def finish(self, cid):
         self.done[cid] = True
         run = self._runnable()
@@ -415,12 +559,15 @@ class Baton:
     def run_clients(self, fns, wall=300.0):
         threads = [threading.Thread(target=self.client_body(c, f), name="client-%d" % c, daemon=True)
                    for c, f in enumerate(fns)]
+        _ACTIVE[0] = self
         for t in threads:
             t.start()
         self.start()
         ok = self.all_done.wait(wall)
+        _ACTIVE[0] = None
         if not ok:
-            self.errors.append("scheduler wall cap: clients did not finish")
+            self.errors.append("scheduler wall cap: clients did not finish (a blocking primitive other than "
+                               "threading.Lock/RLock inside the library?)")
         return ok
 
 
